@@ -20,7 +20,7 @@ import (
 )
 
 const rule = "case = a registration program: a tree of Group(path, handlers, body) nested up to 7 deep (empty, static and dynamic group paths, 0..2 group handlers), containing Get..Trace, Route, Any, Routes (comma list with blanks and lower case / several method strings), Combo (common handlers + 1..4 methods) and AutoHead(v) calls anywhere (also with the value it has); handler lists are passed as fresh variadics or as sub-slices with spare capacity. Route paths are distinct by construction (except that a second Combo call may declare further methods of the same route); a group with a static path of its own may also declare its own route with the empty path. After the program, optionally: a nested declaration whose pieces are harmless but whose concatenation the router must refuse (then a route at the top level, which must be reachable), and a Get under AutoHead on a path whose GET or HEAD is taken. " +
-	"Oracle: an own flatten(program) = list of (method, full path, handler ids, outer group first). Flame P is built from the program, Flame Q from the flat list with Route(method, path, handlers); for every registered path x all nine methods and two unknown ones the handler-id trace and the parameters of P must equal those of Q and flatten's expectation. Also (own property): a Combo with 1..5 methods, inside a group or not, must refuse any of them a second time and keep serving all of them with their first handlers. The refused declarations must be refused like their flat expansions and leave standing exactly what those leave standing. " +
+	"Oracle: an own flatten(program) = list of (method, full path, handler ids, outer group first). Flame P is built from the program, Flame Q from the flat list with Route(method, path, handlers); for every registered path x all nine methods and two unknown ones the handler-id trace and the parameters of P must equal those of Q and flatten's expectation. Also (own property): a Combo with 1..5 methods, inside a group or not, must refuse any of them a second time - also when the repeat is made inside another group - and keep serving all of them with their first handlers. The refused declarations must be refused like their flat expansions and leave standing exactly what those leave standing. " +
 	"non-trivial = a program with nesting depth >= 2, or a Combo with >= 2 methods, or an AutoHead toggle between two GET routes, or sibling routes inside a nested group with group handlers; distinct by case text"
 
 var assumptions = []string{
